@@ -399,6 +399,7 @@ func (a *Analyzer) buildElementTree(result *AnalysisResult) []LayoutElement {
 	// Add headings
 	if result.Headings != nil {
 		for i, heading := range result.Headings.Headings {
+			heading := heading // each element points to its own heading (go.mod is pre-1.22)
 			elem := LayoutElement{
 				Type:    model.ElementTypeHeading,
 				BBox:    heading.BBox,
@@ -423,6 +424,7 @@ func (a *Analyzer) buildElementTree(result *AnalysisResult) []LayoutElement {
 	// Add lists
 	if result.Lists != nil {
 		for i, list := range result.Lists.Lists {
+			list := list // each element points to its own list
 			elem := LayoutElement{
 				Type:  model.ElementTypeList,
 				BBox:  list.BBox,
@@ -449,6 +451,7 @@ func (a *Analyzer) buildElementTree(result *AnalysisResult) []LayoutElement {
 			if consumedParaIndices[i] {
 				continue
 			}
+			para := para // each element points to its own paragraph
 			elem := LayoutElement{
 				Type:      model.ElementTypeParagraph,
 				BBox:      para.BBox,
@@ -666,6 +669,7 @@ func (a *Analyzer) QuickAnalyze(fragments []text.TextFragment, pageWidth, pageHe
 
 		// Convert paragraphs to elements
 		for i, para := range result.Paragraphs.Paragraphs {
+			para := para // each element points to its own paragraph
 			elem := LayoutElement{
 				Type:      model.ElementTypeParagraph,
 				BBox:      para.BBox,
